@@ -49,6 +49,7 @@ func (c03) Plan(tier string, seed int64) []core.Scenario {
 	for i := 0; i < nB; i++ {
 		out = append(out, core.Scenario{Kind: "busy-blackhole", Seed: seed*7873 + int64(i), N: map[string]int{"every": []int{100, 40}[i%2], "noise": i % 3}, S: map[string]string{}})
 	}
+	out = append(out, core.Scenario{Kind: "stalled-write", Seed: seed * 7867, N: map[string]int{"mb": 32}, S: map[string]string{}})
 	// calls issued after the connection loop has ended: no-reconnect loss, closer, client context cancelled
 	nE := 1
 	if tier == "thorough" {
@@ -72,10 +73,54 @@ func (c03) Run(sc core.Scenario) core.Result {
 		runEnded(sc, r3)
 	case "busy-blackhole":
 		runBusyBlackhole(sc, r3)
+	case "stalled-write":
+		runStalledWrite(sc, r3)
 	default:
 		runFault(sc, r3, r4)
 	}
 	return r3.Result()
+}
+
+// runStalledWrite: the peer stops reading at the moment the client starts writing a request larger than
+// the socket buffers (a silent stall striking while a request is written). The call must come back and the
+// client must recover.
+func runStalledWrite(sc core.Scenario, r *core.R) {
+	env := NewEnv(EnvOpt{})
+	defer env.Shutdown()
+	pol := noisePolicy(sc)
+	pol.Rules = append(pol.Rules, &core.Rule{Point: "ws.req.registered", Side: 1, Occ: 2, Do: func(jsonrpc.VerifEvent) { env.Px.KillAll(wsproxy.STALL) }})
+	defer pol.Install()()
+	cl, err := env.NewClient(ClientOpt{Opts: []jsonrpc.Option{jsonrpc.WithReconnectBackoff(5*time.Millisecond, 20*time.Millisecond), jsonrpc.WithPingInterval(50 * time.Millisecond), jsonrpc.WithTimeout(500 * time.Millisecond)}})
+	if err != nil {
+		r.Inconclusive("client: %v", err)
+		return
+	}
+	bg := context.Background()
+	w := Tok("w")
+	cl.Echo(bg, w, "")
+	t := Tok("b")
+	big := Go(t, func() (string, error) { return cl.Echo(bg, t, strings.Repeat("p", sc.I("mb")<<20)) })
+	pol.WaitPoint("ws.req.registered", 1, 1, 3*core.Grace)
+	time.Sleep(300 * time.Millisecond)
+	formed := pol.Count("ws.req.written", 1) < 2
+	r.Key("stalled-write", formed)
+	r.Obs("stalled_write_formed", b2i(formed))
+	r.Sample(map[string]interface{}{"fault": "peer stops reading while a 32 MiB request is being written", "write_stalled": formed})
+	if !formed {
+		r.Inconclusive("the request was swallowed by the socket buffers")
+		return
+	}
+	if !big.Wait(2 * core.Grace) {
+		r.Violate("lost-call:stalled-write", "a call whose %d MiB request is stuck in write(2) to a peer that stopped reading is still blocked after %v (client timeout 500 ms); events: %s", sc.I("mb"), 2*core.Grace, core.Log.Tail(20))
+		env.Px.KillAll(wsproxy.RST)
+		return
+	}
+	if big.Err == nil {
+		r.Violate("foreign-result", "the stalled call returned a value")
+	}
+	if !probeUntilHealthy(cl, r, 2*core.Grace) {
+		r.Violate("lost-call:probe", "the client did not recover after a write stalled on a peer that stopped reading")
+	}
 }
 
 // runBusyBlackhole: the peer falls silent while the application keeps issuing calls more often than
